@@ -156,7 +156,16 @@ func c15DirExec(c c15DirCase, st *lab.Stats) *lab.Fail {
 			}
 		}(ci)
 	}
-	cwg.Wait()
+	clientsDone := make(chan struct{})
+	go func() { cwg.Wait(); close(clientsDone) }()
+	select {
+	case <-clientsDone:
+	case <-time.After(150 * time.Second):
+		// never hang the whole shard: report what is stuck and give up on this case
+		close(stop)
+		st.Inconclusive("directory workload stuck for 150 s; goroutines with gldap frames:\n" + lab.Describe(lab.GldapGoroutines(), 14))
+		return nil
+	}
 	close(stop)
 	wg.Wait()
 	if v := fail.Load(); v != nil {
@@ -189,5 +198,119 @@ func TestC15Directory(t *testing.T) {
 			}
 		},
 		Exec: c15DirExec,
+	}.Run(t)
+}
+
+// ---- Stop called from a goroutine that is causally independent of the traffic ----
+
+type c15StopCase struct {
+	Transports []string `json:"transports"` // one connection each: plain tls starttls
+	Requests   int      `json:"requests"`
+	StopAfter  int      `json:"stop_after_ms"`
+	Blocked    bool     `json:"blocked"` // one handler per connection is still running when Stop comes
+}
+
+// c15StopExec: the goroutine that calls Stop is started BEFORE any client
+// connects and only sleeps, so that no happens-before edge leads from the
+// clients' traffic (StartTLS upgrades, requests) to the Stop call - the race
+// detector then sees unsynchronised accesses between the Stop path and the
+// connections' state that an in-order test would hide.
+func c15StopExec(c c15StopCase, st *lab.Stats) *lab.Fail {
+	main, _, err := lab.SharedPKI()
+	if err != nil {
+		st.Inconclusive(err.Error())
+		return nil
+	}
+	g := newGate()
+	defer g.open()
+	h := func(w *gldap.ResponseWriter, r *gldap.Request) {
+		_, id, _ := gldap.VerifMessageInfo(r)
+		if c.Blocked && int(id%tagStride) == 999 {
+			g.wait(2 * time.Second)
+		}
+		_ = respondOK(w, r)
+	}
+	newMux := func() *gldap.Mux {
+		mux, _ := gldap.NewMux()
+		_ = mux.DefaultRoute(h)
+		_ = mux.ExtendedOperation(lab.StartTLSHandler(main.ServerTLS()), gldap.ExtendedOperationStartTLS)
+		return mux
+	}
+	plain, err := lab.StartServer(newMux(), lab.ServerOpts{OnClose: func(int) {}})
+	if err != nil {
+		st.Inconclusive(err.Error())
+		return nil
+	}
+	tlsSrv, err := lab.StartServer(newMux(), lab.ServerOpts{TLS: main.ServerTLS()})
+	if err != nil {
+		_ = plain.Stop(10 * time.Second)
+		st.Inconclusive(err.Error())
+		return nil
+	}
+	stopped := make(chan struct{})
+	go func() {
+		time.Sleep(time.Duration(c.StopAfter) * time.Millisecond)
+		_ = plain.S.Stop()
+		_ = tlsSrv.S.Stop()
+		close(stopped)
+	}()
+	var wg sync.WaitGroup
+	for tag, tr := range c.Transports {
+		wg.Add(1)
+		go func(tag int, tr string) {
+			defer wg.Done()
+			addr := plain.Addr
+			if tr == "tls" {
+				addr = tlsSrv.Addr
+			}
+			cl, err := lab.Connect(addr, tr, main.ClientTLS(false))
+			if err != nil {
+				return
+			}
+			defer cl.Close()
+			base := int64(tag) * tagStride
+			for i := 0; i < c.Requests; i++ {
+				_ = cl.Send(simpleReq("search", base+int64(i)+1).Bytes())
+				if _, err := cl.Next(5 * time.Second); err != nil {
+					return
+				}
+			}
+			_ = cl.Send(simpleReq("search", base+999).Bytes())
+			_, _, _ = readUntilClosed(cl, 5*time.Second) // the server ends the connection when it is stopped
+		}(tag, tr)
+	}
+	select {
+	case <-stopped:
+	case <-time.After(20 * time.Second):
+		g.open()
+		st.Inconclusive("Stop did not return in 20 s")
+	}
+	g.open()
+	wg.Wait()
+	nt := false
+	for _, tr := range c.Transports {
+		st.Class("transport=" + tr)
+		if tr == "starttls" {
+			nt = true
+		}
+	}
+	st.Case(nt || len(c.Transports) >= 2, lab.JSONKey(c), fmt.Sprintf("blocked=%v", c.Blocked))
+	st.Sample(c)
+	return nil
+}
+
+func TestC15StopIndependent(t *testing.T) {
+	lab.Prop[c15StopCase]{
+		ID: "C15", Part: "stop-independent",
+		Rule: "rapid: 1..6 connections (plain / TLS / StartTLS-upgraded) exchange 0..5 requests and stay open, optionally with a handler still running, while a goroutine that was started BEFORE any client connected and only slept calls Stop (no happens-before edge from the traffic to the Stop call); oracle = Go race detector as for the other C15 parts; non-trivial = a StartTLS-upgraded connection or >= 2 connections open at Stop; distinct by hash",
+		Gen: func(t *rapid.T) c15StopCase {
+			return c15StopCase{
+				Transports: rapid.SliceOfN(rapid.SampledFrom([]string{"plain", "tls", "starttls", "starttls"}), 1, 6).Draw(t, "transports"),
+				Requests:   rapid.IntRange(0, 5).Draw(t, "requests"),
+				StopAfter:  rapid.SampledFrom([]int{30, 60, 120}).Draw(t, "stopafter"),
+				Blocked:    rapid.Bool().Draw(t, "blocked"),
+			}
+		},
+		Exec: c15StopExec,
 	}.Run(t)
 }
